@@ -44,6 +44,13 @@ def run(ck):
         for j, v in enumerate(values_for(N, rng, quick)):
             add(f"de{N}_{j}", ["w " + hx(v), f"decomp {N} $0", "snap"], ("decomp", N, v))
             ck.count(("decomp", N, v), kind="component_decomposition")
+    # several components on ONE witness in one composer: each call must emit its own gates and return its own result
+    for j, (ops, vs) in enumerate([(["trunc 8", "trunc 8"], [0x1ff]), (["trunc 16", "trunc 8"], [0x12345]), (["trunc 8", "trunc 16"], [0x12345]),
+                                   (["decomp 8", "decomp 8"], [0xa5, 0x100]), (["decomp 16", "decomp 8"], [0xa5, 0x1a5]), (["trunc 254", "trunc 1"], [R - 1]),
+                                   (["trunc 8", "decomp 8"], [0xff, 0x1ff]), (["decomp 256", "decomp 8"], [0x7f, 0x100]), (["trunc 0", "trunc 8", "trunc 0"], [0x3ff])]):
+        for k, v in enumerate(vs):
+            add(f"sq{j}_{k}", ["w " + hx(v)] + [f"{o} $0" for o in ops] + ["snap"], ("seq", tuple(ops), v))
+            ck.count(("seq", tuple(ops), v), kind="several components on one witness")
     impl, model = composer.run_both(ck, "\n".join(lines) + "\n", "c11")
     ck.sample({"program": progs["tr8_0"]}); ck.sample({"program": progs["de256_0"]})
     bad = composer.compare_programs(ck, progs, impl, model, "C11")
@@ -54,6 +61,10 @@ def run(ck):
         snap = Snapshot(impl[name])
         if not snap.gates: continue
         res = snap.results
+        if kind == "seq":
+            ok = all(v < (1 << int(o.split()[1])) for o in N if o.startswith("decomp") and int(o.split()[1]) <= 254)
+            jobs.append((name, snap, None)); expect[name] = ok; info[name] = ("several components on one witness", 0, v)
+            continue
         if kind == "trunc":
             jobs.append((name, snap, None)); expect[name] = True         # satisfiable for every input
             low = int(res[1][0])
